@@ -44,6 +44,12 @@ Close(d) ==
 SetKey(d, k) ==
   IF d \in open THEN [res |-> "ok", exists |-> exists, open |-> open, bound |-> [bound EXCEPT ![d] = k]]
   ELSE [res |-> "notfound", exists |-> exists, open |-> open, bound |-> bound]
+\* db.set_api_key WITHOUT a key: the server generates one, binds it and returns it (abstractly: the key "g" + d)
+GenFor(d) == "g" \o d
+GenKey(d) == SetKey(d, GenFor(d))
+\* the primary database holds the registry and the key hashes: it can never be delegated to a per-database key,
+\* whether the key is supplied or generated
+PrimaryRefused == [res |-> "conflict", exists |-> exists, open |-> open, bound |-> bound]
 RemoveKey(d) ==
   IF d \in open THEN [res |-> "ok", exists |-> exists, open |-> open, bound |-> [bound EXCEPT ![d] = NoKey]]
   ELSE [res |-> "notfound", exists |-> exists, open |-> open, bound |-> bound]
@@ -54,7 +60,8 @@ Apply(op) ==
   CASE op[1] = "create"    -> Create(op[2], op[3])
     [] op[1] = "open"      -> Open(op[2])
     [] op[1] = "close"     -> Close(op[2])
-    [] op[1] = "setkey"    -> SetKey(op[2], op[3])
+    [] op[1] = "setkey"    -> IF op[2] = Primary THEN PrimaryRefused ELSE SetKey(op[2], op[3])
+    [] op[1] = "genkey"    -> IF op[2] = Primary THEN PrimaryRefused ELSE GenKey(op[2])
     [] op[1] = "removekey" -> RemoveKey(op[2])
     [] op[1] = "restart"   -> Restart
 
